@@ -303,33 +303,40 @@ def p4(fb, chk, hr, tag):
 
 
 def p5(fb, chk, tag):
+    from . import headers
     fs = [f for f in fb.find(self_adt="BackendReqHandler") if not f.trait and "MsgHeader" in (f.rec.get("sig_out") or "")
           and f.name != "new"]
-    fs = [f for f in fs if any((callee_of(t) or {}).get("name") == "new" for _b, t in f.calls())]
     if len(fs) != 1:
         chk.anchor_missing("P5", tag + "reply-header constructor", "found %s" % [f.short for f in fs])
         return
     f = fs[0]
     chk.fn_seen(f)
-    m = must_of(fb, f)
-    for bb, t, c in sites(f, name="new"):
-        args = m.sym.arg_terms(bb)
-        code_ok = args[0][0] == "unwrap" and args[0][1][0] == "call" and args[0][1][1] == "get_code" and \
-            root_of(args[0][1][2][0]) == ("param", 2, f.arg_names()[1])
-        size = args[2]
-        sz_ok = False
+    names = f.arg_names()
+    hs = headers.built_headers(fb, f)
+    if not hs:
+        chk.bad("P5", tag + "reply-header", "no success path of %s yields a header value that can be read field by field" % f.short, f.loc())
+        return
+    probs = set()
+    for h in hs:
+        if not headers.from_request(h["request"], names[1]) or not any(s[0] == "field" and s[2] == "request" for s in subterms(h["request"]) if s[0] == "field"):
+            probs.add("request code is %s (must be the request's own code)" % show(h["request"])[:60])
+        if h["flags_value"] != (wire.FLAG_REPLY | wire.FLAG_VERSION):
+            probs.add("flags are %s (must be exactly version 1 | REPLY = 0x5: NEED_REPLY clear, no bit taken over from the request)"
+                      % (hex(h["flags_value"]) if h["flags_value"] is not None else show(h["flags"])[:70]))
+        size = h["size"]
         inner = size
-        while inner[0] == "cast":
+        while inner is not None and inner[0] == "cast":
             inner = inner[1]
-        if inner[0] == "bin" and inner[1] == "Add":
+        sz_ok = False
+        if inner is not None and inner[0] == "bin" and inner[1] == "Add":
             parts = [inner[2], inner[3]]
             has_sizeof = any(p[0] == "call" and p[1] == "size_of" for p in parts)
-            has_payload = any(p[0] == "param" and p[2] == f.arg_names()[2] for p in parts)
+            has_payload = any(p[0] == "param" and p[2] == names[2] for p in parts)
             sz_ok = has_sizeof and has_payload
-        fl = const_eval(fb, m.sym, args[1])
-        chk.check(code_ok and sz_ok and fl == wire.FLAG_REPLY, "P5", tag + "reply-header",
-                  "code <- request's, flags REPLY, size = size_of::<T>() + payload",
-                  "reply header built with code %s, flags %s, size %s" % (show(args[0])[:50], fl, show(size)[:60]), f.loc(t["line"]))
+        if not sz_ok:
+            probs.add("size is %s (must be size_of::<T>() + payload length)" % (show(size)[:60] if size is not None else None))
+    chk.check(not probs, "P5", tag + "reply-header", "code <- request's, flags = version|REPLY, size = size_of::<T>() + payload (%d success paths)" % len(hs),
+              "reply header: %s" % "; ".join(sorted(probs)), f.loc())
 
 
 def p6(fb, chk, sm, tag):
